@@ -1,6 +1,7 @@
 import IpaVerif.Model.Util
 import IpaVerif.Model.Serde
 import IpaVerif.Model.Ristretto
+import IpaVerif.Model.Transpose
 import IpaVerif.Generated.PrimeFields
 import IpaVerif.Generated.C09Serde
 /-!
@@ -88,9 +89,81 @@ def rp (op : String) (args : List String) : Option String :=
       pure (if IpaVerif.Ristretto.valid bs then s!"ok {bytesHex bs}" else "err")
   | _, _ => none
 
+/-! ### transposes (`c09_transpose`)
+
+* `c09.tr <kind> <M> <N> <form> <left-hex> <right-hex|->` — `kind` names the macro
+  (`ba_to_ba`, `bool_to_ba`, `bool_to_ba_small`, `ba_to_bool`, `ba_fn_to_bool`, `ba_to_bool_small`), the
+  source is an `M × N` bit matrix given as rows of `⌈N/8⌉` bytes (left and right share separately);
+  `form` is `arr` (the array impl), `shim` (Vec / BitDecomposed destination) or `shimvec` (`&Vec`
+  source); response `<left rows> <right rows>` or `err <expected> <actual>` (LengthError).
+* `c09.tr aggregation_transpose <M> <N> <B> <left-hex> <right-hex>` — `B` matrices, bit-major.
+* `c09.tr-list` — the impls known (from the macro invocations). -/
+
+open IpaVerif.Transpose in
+def chunks (n : Nat) (bs : List Nat) : List (List Nat) :=
+  if n = 0 then [] else
+  let rec go : Nat → List Nat → List (List Nat)
+    | 0, _ => []
+    | fuel + 1, bs => if bs.isEmpty then [] else bs.take n :: go fuel (bs.drop n)
+  go (bs.length + 1) bs
+
+def rowsHex (m : List (List Nat)) : String := bytesHex m.flatten
+
+def findImpl (kind : String) (M N : Nat) : Option Nat :=
+  (IpaVerif.Generated.Transpose.impls.find? (fun e => e.1 == kind && e.2.1 == M && e.2.2.1 == N)).map (·.2.2.2)
+
+/-- which shim forms take a fallible (`LengthError`) source -/
+def fallibleForm (kind form : String) : Bool :=
+  (form == "shim" && (kind == "bool_to_ba" || kind == "bool_to_ba_small")) || (form == "shimvec" && kind == "ba_to_bool_small")
+
+def trOne (f : IpaVerif.Transpose.Rows → IpaVerif.Transpose.Rows) (l r : String) (rowBytes : Nat) : Option String := do
+  let lb ← parseHexBytes l
+  if r == "-" then pure (rowsHex (f (chunks rowBytes lb))) else
+  let rb ← parseHexBytes r
+  pure s!"{rowsHex (f (chunks rowBytes lb))} {rowsHex (f (chunks rowBytes rb))}"
+
+def trDispatch (impl : Nat → Nat → Nat → Bool → IpaVerif.Transpose.Rows → IpaVerif.Transpose.Rows)
+    (args : List String) : Option String :=
+  match args with
+  | [kind, ms, ns, form, l, r] => do
+      let M ← ms.toNat?
+      let N ← ns.toNat?
+      let kernel ← findImpl kind M N
+      let rowBytes := (N + 7) / 8
+      if kind == "aggregation_transpose" then
+        let B ← form.toNat?
+        let lb ← parseHexBytes l
+        let rb ← parseHexBytes r
+        let per := M * rowBytes
+        let f := fun (bs : List Nat) => (chunks per bs).map (fun mat => impl kernel M N true (chunks rowBytes mat))
+        if lb.length != B * per || rb.length != B * per then none else
+        pure s!"{bytesHex ((f lb).map List.flatten).flatten} {bytesHex ((f rb).map List.flatten).flatten}"
+      else
+        let lb ← parseHexBytes l
+        let nrows := lb.length / rowBytes
+        if nrows != M then
+          (if fallibleForm kind form then pure s!"err {M} {nrows}" else none)
+        else trOne (impl kernel M N (form != "arr")) l r rowBytes
+  | _ => none
+
+open IpaVerif.Transpose in
+/-- the model of the code: tiling drivers + kernels; the array form of the padded variant keeps all `8⌈N/8⌉` rows -/
+def trModel (kernel M N : Nat) (shim : Bool) (m : Rows) : Rows :=
+  if kernel == 0 && !shim then tiled8 m ((M + 7) / 8) ((N + 7) / 8) else transposeImpl kernel M N m
+
+open IpaVerif.Transpose in
+/-- the specification: `refT m i j = m j i` -/
+def trSpec (kernel M N : Nat) (shim : Bool) (m : Rows) : Rows :=
+  if kernel == 0 && !shim then refT m M ((N + 7) / 8 * 8) else refT m M N
+
+def implList : String :=
+  String.intercalate "," (IpaVerif.Generated.Transpose.impls.map (fun e => s!"{e.1}:{e.2.1}x{e.2.2.1}"))
+
 /-- `some response` if the request belongs to this property, else `none`. -/
 def handle (toks : List String) : Option String :=
   match toks with
+  | ["c09.tr-list"] => some implList
+  | "c09.tr" :: args => some ((trDispatch trModel args).getD "bad-request")
   | "c09.rp" :: op :: args => some ((rp op args).getD "bad-request")
   | op :: ty :: args =>
     if op == "c09.blk" || op == "c09.de" || op == "c09.en" then
@@ -162,6 +235,11 @@ def serdeOracle (op : String) (t : Ty) (args : List String) (impl : String) : Op
 /-- Property oracle on (request, implementation response): `some "holds"`, `some "fails <why>"`, or `none`. -/
 def oracle (toks : List String) (impl : String) : Option String :=
   match toks with
+  | ["c09.tr-list"] => verdict (impl == implList) "the harness and the source disagree on the list of transpose impls"
+  | "c09.tr" :: args =>
+      match trDispatch trSpec args with
+      | some want => verdict (impl == want) "destination bit (i, j) must equal source bit (j, i) (or LengthError {expected, actual} for a source of the wrong height)"
+      | none => some "unknown"
   | ["c09.rp", "de", h] =>
       -- accepted ⇒ the re-encoding is the input (only canonical encodings are accepted); whether a
       -- rejected string is really non-canonical is dalek's business (hypothesis) — the model above
